@@ -6,14 +6,17 @@
 // ConsensusState is built on the copy and started through the real start-up
 // path (WAL marker check + catchupReplay). Oracle:
 //
-//	(a) no panic, no start-up error
-//	(b) RoundState digest after replay == digest of the live node at the crash
-//	    point (height, round, step, lock, proposal, parts bit-array, every
-//	    round's vote bit-arrays and majorities, last-commit bit-array)
-//	(c) real crash/restart events in the run: X never emits a vote/proposal
-//	    contradicting one it emitted before; all nodes commit the same blocks
-//	(d) byte cuts: the WAL head truncated at every byte offset of its last
-//	    record -> no panic, digest == digest after the last complete record.
+//		(a) no panic, no start-up error
+//		(b) RoundState digest after replay == digest of the live node at the crash
+//		    point (height, round, step, lock, proposal, parts bit-array, every
+//		    round's vote bit-arrays and majorities, last-commit bit-array)
+//		(c) real crash/restart events in the run: X never emits a vote/proposal
+//		    contradicting one it emitted before; all nodes commit the same blocks
+//		(e) intra-step: a crash right after the commit-completing input was logged and before any of its
+//	     effects were written must be recovered by WAL replay, and a second crash in the following
+//	     height must again restore the round state
+//	 (d) byte cuts: the WAL head truncated at every byte offset of its last
+//		    record -> no panic, digest == digest after the last complete record.
 package main
 
 import (
@@ -57,9 +60,141 @@ type mon struct {
 	byH        map[int64][]byte
 	rate       float64
 	cuts       int
+	pre        *preSnap
 	cutsMarker int
 	nclone     int
 	rngv       func() float64
+}
+
+// preSnap is X's disk immediately before it processes an input.
+type preSnap struct {
+	state, block *sim.DiskDB
+	signer       []byte
+	walSize      int64
+	storeHeight  int64
+}
+
+func (m *mon) onBefore(n *sim.Net, i int) {
+	if i != m.X || m.failed {
+		return
+	}
+	nd := n.Nodes[i]
+	if !nd.Up {
+		return
+	}
+	m.pre = nil
+	rs := nd.CS.VerifRoundState()
+	// only where a commit can happen next (cheap filter): a precommit majority is near
+	if rs.Step < 6 && rs.Step != 8 {
+		return
+	}
+	sb, err := ioutil.ReadFile(nd.SignFile)
+	if err != nil {
+		return
+	}
+	m.pre = &preSnap{state: nd.StateDB.(*sim.DiskDB).Clone(), block: nd.BlockDB.(*sim.DiskDB).Clone(), signer: sb, walSize: headSize(nd), storeHeight: nd.Store.Height()}
+}
+
+// intraStep: the process died right after the input of this step was logged, before any of its
+// effects (block store, state, signer) were written; the step committed a block when it ran live.
+// The restarted node commits that block through WAL replay. Then a second crash in the next height.
+func (m *mon) intraStep(nd *sim.Node, cur stepRec) {
+	pre := m.pre
+	m.pre = nil
+	if pre == nil || nd.Store.Height() <= pre.storeHeight || pre.walSize < 0 {
+		return
+	}
+	data, err := ioutil.ReadFile(filepath.Join(nd.WALDir, "wal"))
+	if err != nil || int64(len(data)) <= pre.walSize {
+		return // the head was rotated during the step: not attributable
+	}
+	nl := bytes.IndexByte(data[pre.walSize:], '\n')
+	if nl < 0 {
+		return
+	}
+	cut := pre.walSize + int64(nl) + 1
+	dir := filepath.Join(m.base, fmt.Sprintf("intra-%d-%d", m.c, m.nclone))
+	m.nclone++
+	os.MkdirAll(dir, 0755)
+	defer os.RemoveAll(dir)
+	cl, err := m.net.Snapshot(m.X, dir)
+	if err != nil {
+		return
+	}
+	cl.StateDB, cl.BlockDB = pre.state, pre.block
+	ioutil.WriteFile(cl.SignFile, pre.signer, 0600)
+	os.Truncate(filepath.Join(cl.WALDir, "wal"), cut)
+	// the application is one height behind as well (its record of the committed block is part of the step)
+	if len(cl.App.History) > 0 && cl.App.Height > pre.storeHeight {
+		cl.App.History = cl.App.History[:len(cl.App.History)-1]
+		cl.App.Height = pre.storeHeight
+		cl.App.AppHash, cl.App.ReceiptsHash = []byte{}, nil
+		if k := len(cl.App.History); k > 0 {
+			cl.App.AppHash, cl.App.ReceiptsHash = cl.App.History[k-1].AppHash, cl.App.History[k-1].ReceiptsHash
+		}
+	}
+	ok := m.bootGuard(cl, "crash right after the commit-completing input was logged")
+	if !ok {
+		return
+	}
+	defer m.net.CloseDetached(cl)
+	m.run.Count("intra_step_crash_points", 1)
+	got := sim.Digest(cl.CS)
+	if got != cur.digest {
+		m.viol("intra-step-replay-digest-differs", fmt.Sprintf("crash between logging and handling the input that committed height %d: digest after WAL replay differs from the live node after that input", pre.storeHeight+1), map[string]interface{}{"live": cur.digest, "replayed": got})
+		return
+	}
+	m.run.Count("intra_step_digest_equal", 1)
+	// second crash inside the next height: let the restarted node work a little, then restart it again
+	for k := 0; k < len(cl.Timeouts); k++ {
+		if cl.Timeouts[k].Height == cl.CS.VerifRoundState().Height {
+			cl.CS.VerifStepTimeout(cl.Timeouts[k])
+			break
+		}
+	}
+	for i := 0; i < 6; i++ {
+		if _, more := cl.CS.VerifStepInternal(); !more {
+			break
+		}
+	}
+	want := sim.Digest(cl.CS)
+	dir2 := filepath.Join(m.base, fmt.Sprintf("intra2-%d-%d", m.c, m.nclone))
+	m.nclone++
+	os.MkdirAll(dir2, 0755)
+	defer os.RemoveAll(dir2)
+	cl2, err := m.net.SnapshotNode(cl, dir2)
+	if err != nil {
+		return
+	}
+	if !m.bootGuard(cl2, "second crash, inside the height after a block committed through WAL replay") {
+		return
+	}
+	defer m.net.CloseDetached(cl2)
+	m.run.Count("chained_crash_points", 1)
+	if got2 := sim.Digest(cl2.CS); got2 != want {
+		m.viol("chained-crash-replay-digest-differs", fmt.Sprintf("height %d was committed through WAL replay, the node then worked on height %d and was restarted again: the second replay does not restore its round state", pre.storeHeight+1, pre.storeHeight+2), map[string]interface{}{"before_second_crash": want, "after_second_replay": got2})
+	}
+}
+
+// bootGuard boots a detached node, turning panics and start errors into violations.
+func (m *mon) bootGuard(nd *sim.Node, tag string) bool {
+	var bootErr error
+	func() {
+		defer func() {
+			if r := recover(); r != nil {
+				m.viol("replay-panic:"+panicSite(string(debug.Stack())), fmt.Sprintf("%s: WAL replay panicked: %v", tag, r), map[string]interface{}{"panic": fmt.Sprint(r), "stack": string(debug.Stack())})
+				bootErr = fmt.Errorf("panic")
+			}
+		}()
+		bootErr = m.net.BootDetached(nd)
+	}()
+	if bootErr != nil {
+		if !m.failed {
+			m.viol("restart-error", fmt.Sprintf("%s: start-up from the WAL failed: %v", tag, bootErr), nil)
+		}
+		return false
+	}
+	return true
 }
 
 func (m *mon) viol(key, what string, extra map[string]interface{}) {
@@ -196,6 +331,12 @@ func (m *mon) onStep(n *sim.Net, i int) {
 	}
 	m.run.Distinct("live_digests", cur.digest)
 	defer func() { m.prev, m.have = cur, true }()
+	if m.pre != nil {
+		m.intraStep(nd, cur)
+		if m.failed {
+			return
+		}
+	}
 	if m.have && cur.h != m.prev.h && m.cutsMarker > 0 {
 		// the step that moved X to a new height wrote the "#HEIGHT" marker: cut into it
 		m.byteCuts(nd, cur, true)
@@ -372,6 +513,7 @@ func runCase(run *lib.Run, c int64, base string) {
 		func() { defer func() { recover() }(); net.Close() }()
 	}()
 	net.OnStep = m.onStep
+	net.OnBefore = m.onBefore
 	adv := sim.NewAdversary(net, rng, byz)
 	adv.PClaim = 0 // majority claims are not WAL-logged inputs (reactor state), see assumptions
 	switch rng.Intn(4) {
@@ -450,5 +592,7 @@ func main() {
 	run.Require("replays_that_restored_a_lock", 20)
 	run.Require("crash_points_in_round>0", 100)
 	run.Require("byte_cuts", 200)
+	run.Require("intra_step_crash_points", 20)
+	run.Require("chained_crash_points", 20)
 	os.Exit(run.Finish())
 }
